@@ -17,15 +17,22 @@ TRUSTED = ["model: coq/Model/Meta.v (metadata frames with pandas' loc / iloc dis
            "operations and merge_group) over Model/Iset.v; theorems: Proofs/MetaProofs.v (+ Proofs/InterDiffProofs.v for the parents of intersect / set_diff)",
            "pandas / NumPy are trusted to turn an int / slice / list / mask key into the positions Python's list semantics gives, and .loc / .iloc / reset_index / get_indexer to be what "
            "the model's loc / sel / range_frame / first_pos say (exercised on every key of the complete spaces by the correspondence)",
-           "NOT MODELLED, exercised by the harness through the public API only: save / load_file round trips (key tables are C11's), merge_group(reset_index=True) (model extracted and "
-           "compared, no theorem), in-place corruption of an operand (not expressible in the functional model; operands are re-checked after every merge)"]
+           "NOT MODELLED, exercised by the harness through the public API only: save / load_file round trips (key tables are C11's), merge_group of three groups, IntervalSet[rows, column name(s)] (the model has no column axis), NumPy column permutations, in-place corruption of an operand "
+           "(not expressible in the functional model; operands are re-checked after every merge)"]
 ASSUMPTIONS = ["labels (TsdFrame columns, TsGroup keys) are distinct; IntervalSet operands are canonical and carry the default 0..n-1 metadata index (both are what the constructors produce)",
                "TsGroup(dict in unsorted key order, metadata=list) attaching the list to the SORTED keys is outside the statement (it is about preservation after attachment)",
-               "NumPy functions that permute columns (np.flip / np.roll / np.take on axis 1 keep labels and metadata in the old order) are not among the statement's operations; recorded as an observation",
+               "NumPy functions that permute the columns of a TsdFrame (np.flip / np.fliplr / np.roll / np.take on axis 1) are exercised and REPORTED (key op=TsdFrame.numpy_column_permutation): the "
+               "result keeps labels and metadata in the old order, i.e. attached to another column's data; C14's statement asks for exactly that (labels kept when the column count is unchanged), so "
+               "it is a known finding, not a repair",
+               "a boolean pd.Series whose index is the column labels / group keys in ANOTHER order: which elements it selects is not C13's business (TsdFrame[:, key] and TsGroup[key] use the values "
+               "by position, TsdFrame[key] reads it as a row mask and raises on a non-square frame - counted as observed:*); what comes back is checked for attachment",
+               "IntervalSet[rows, metadata column(s)] is held to the row semantics of IntervalSet[rows, 'start'] and IntervalSet[rows, :] (NumPy positions: negative positions wrap, slices exclude their stop)",
                "the model follows /repo as repaired (c7648fb: pandas keys of IntervalSet.__getitem__ positional; c0dc0a1: merge_group sorts the concatenated metadata and copies its "
-               "first operand's metadata); the pre-repair forms are kept as *_orig definitions with their refutation theorems"]
+               "first operand's metadata; and the proposed repair of the tuple form ep[pandas key, :], which is compared with the SAME model functions as ep[pandas key]); the pre-repair forms are "
+               "kept as *_orig definitions with their refutation theorems"]
 
 U = 1953125  # 2^-9 s in ticks
+NSTEPS = 3   # length of the operation sequences of run_setops
 US = 1000
 D = "driver_c13"
 
@@ -62,7 +69,8 @@ def canon_res(r, tagcols=("tag",)):
 
 def attach_err(r, orig, mode, tagcol="tag"):
     """statement-level oracle: every output interval that carries a tag is the input interval with that tag
-    (mode 'same': same start, end equal or trimmed 1 us) or lies inside it (mode 'inside').
+    (mode 'same': same start AND same end - the operands are canonical, no selection of their intervals has touching
+    neighbours, so the constructor's 1 us trim never applies) or lies inside it (mode 'inside').
     Tags are derivable from the data (tag = start tick // U of the interval it was given with). Returns None/'nometa'/message."""
     if tagcol not in r.metadata_columns:
         return "nometa"
@@ -76,7 +84,7 @@ def attach_err(r, orig, mode, tagcol="tag"):
         if t not in by_tag:
             return "interval %d carries unknown tag %d" % (i, t)
         s0, e0 = by_tag[t]
-        ok = (s == s0 and e in (e0, e0 - US)) if mode == "same" else (s0 <= s and e <= e0)
+        ok = (s == s0 and e == e0) if mode == "same" else (s0 <= s and e <= e0)
         if not ok:
             return "interval %d = (%d,%d) carries the tag of (%d,%d)" % (i, s, e, s0, e0)
         if lab in md.columns and md[lab].values[i] != "s%d" % t:
@@ -151,6 +159,10 @@ def iset_keys(n, pd, quick, rng):
     for l in lists[:40]:
         ps = [p % n for p in l] if all(-n <= p < n for p in l) else None
         out.append(("list,:", (list(l), slice(None)), ps, l))
+    for k in range(-n - 1, n + 1):
+        out.append(("int,:", (k, slice(None)), [k % n] if -n <= k < n else None, k))
+    for a, b, c in rng.sample(sl, 80):
+        out.append(("slice,:", (slice(a, b, c), slice(None)), list(range(n))[slice(a, b, c)], [a, b, c]))
     for mask in itertools.product([False, True], repeat=n):
         ps = [i for i, b in enumerate(mask) if b]
         out.append(("mask_list", list(mask), ps, [int(b) for b in mask]))
@@ -203,7 +215,9 @@ def run_iset_index(cx):
             subs += [list(p) for p in itertools.permutations(range(n), m)]
         subs += [[-1, 0], [0, -1], [-n, -1], [0, n], [-n - 1], [1, 1]]
         for l in subs:
-            for form, key in (("pd.Index", pd.Index(l)), ("pd.Series_int", pd.Series(l))):
+            forms = [("pd.Index", pd.Index(l)), ("pd.Series_int", pd.Series(l)), ("pd.Series_int_own_index", pd.Series(l, index=[7 - 2 * i for i in range(len(l))]))]
+            forms += [(f + ",:", (k, slice(None))) for f, k in forms]
+            for form, key in forms:
                 inp = {"intervals": ivs, "form": form, "key": l}
                 res.count("iset_index_" + form)
                 res.case(("iset", gname, form, str(l)), nontrivial=True)
@@ -230,16 +244,16 @@ def run_iset_index(cx):
         if cx.quick:
             perms = [tuple(range(n))] + rng.sample(perms[1:], 11)
         for perm in perms:
-            for mask in itertools.product([False, True], repeat=n):
+            for mask, tup in itertools.product(itertools.product([False, True], repeat=n), (False, True)):
                 key = pd.Series(list(mask), index=list(perm))
                 aligned = list(perm) == list(range(n))
-                form = "bool_series" if aligned else "bool_series_permuted_index"
-                inp = {"intervals": ivs, "form": form, "mask_index": list(perm), "mask": [int(b) for b in mask]}
+                form = ("bool_series" if aligned else "bool_series_permuted_index") + (",:" if tup else "")
+                inp = {"intervals": ivs, "form": form, "mask_index": list(perm), "mask": [int(b) for b in mask], "tuple": tup}
                 res.count("iset_index_" + form)
                 res.case(("iset", gname, form, perm, mask), nontrivial=0 < sum(mask) < n)
                 kk = {"op": "IntervalSet.__getitem__", "form": form}
                 try:
-                    r = ep[key]
+                    r = ep[key, :] if tup else ep[key]
                     impl = canon_res(r)
                 except Exception as ex:
                     r, impl = None, "E"
@@ -253,6 +267,8 @@ def run_iset_index(cx):
                         cx.viol(dict(kk, part="lost"), "mask selection lost its metadata", inp, impl)
                 elif err:
                     cx.viol(dict(kk, part="misattached"), err, inp, impl, "tags of the returned intervals")
+                if [t[0] for t in ticks(r)] != [ivs[i][0] for i, b in enumerate(mask) if b]:
+                    cx.viol(dict(kk, part="intervals"), "selected intervals are not those at the True positions", inp, impl)
         # groupby / get_group, drop_short / drop_long (mask built from the data), column lists, loc
         for assign in itertools.product([0, 1], repeat=n):
             e2 = mk_ep(nap, ivs, extra={"grp": list(assign)})
@@ -290,11 +306,12 @@ def run_iset_index(cx):
             err = attach_err(r, ivs, "same")
             if err or len(r) != n - 1:
                 cx.viol({"op": "IntervalSet.save_load", "part": "then_index"}, str(err), {"intervals": ivs}, canon_res(r))
-        r = ep[["start", "end", "tag", "lab"]]
-        res.case(("iset", gname, "columns"), nontrivial=True)
-        err = attach_err(r, ivs, "same")
-        if err:
-            cx.viol({"op": "IntervalSet.__getitem__", "form": "column_list"}, str(err), {"intervals": ivs})
+        for cols in (["start", "end", "tag", "lab"], ["lab", "end", "start", "tag"]):
+            r = call(cx, {"op": "IntervalSet.__getitem__", "form": "column_list"}, {"intervals": ivs, "columns": cols}, lambda: ep[cols])
+            res.case(("iset", gname, "columns", str(cols)), nontrivial=True)
+            err = attach_err(r, ivs, "same") if isinstance(r, nap.IntervalSet) else "result is not an IntervalSet"
+            if err or len(r) != n:
+                cx.viol({"op": "IntervalSet.__getitem__", "form": "column_list"}, str(err), {"intervals": ivs, "columns": cols})
         for l in subs[:30]:
             if not all(0 <= p < n for p in l):
                 continue
@@ -306,7 +323,93 @@ def run_iset_index(cx):
             for p in l:
                 if ep.loc[p, "tag"] != ivs[p][0] // U or C.to_ns(ep.loc[p, "start"]) != ivs[p][0]:
                     cx.viol({"op": "IntervalSet.loc", "form": "scalar"}, "loc[i, column] is not interval i's value", {"intervals": ivs, "key": p})
+        run_iset_column_keys(cx, nap, pd, ep, ivs, gname, rng)
     cx.flush()
+
+
+def run_iset_column_keys(cx, nap, pd, ep, ivs, gname, rng):
+    """ep[rows, 'tag'], ep[rows, [metadata columns]], ep[rows, ['start', 'end', metadata columns]]: the row key selects the same
+    intervals as in ep[rows, 'start'] / ep[rows] (NumPy positions), and every returned metadata value is that interval's"""
+    res = cx.res
+    n = len(ivs)
+    rows = [("int", k, [k % n], k) for k in range(-n, n)]
+    rngv = [None] + list(range(-n - 1, n + 2))
+    sl = [(a, b, c) for a in rngv for b in rngv for c in (None, 1, 2, -1)]
+    for a, b, c in rng.sample(sl, 50 if cx.quick else 300) + [(0, 2, None), (None, -1, None), (-2, None, None), (1, 1, None)]:
+        rows.append(("slice", slice(a, b, c), list(range(n))[slice(a, b, c)], [a, b, c]))
+    lists = [list(p) for m in (1, 2, n) for p in itertools.permutations(range(n), m)]
+    lists = (rng.sample(lists, 24) if cx.quick else lists) + [[0, 1], [1, 2], [0, n - 1], [-1], [0, -1], [-n, -1], [n - 1, 0]]
+    for l in lists:
+        rows.append(("list", list(l), [p % n for p in l], l))
+        rows.append(("ndarray", np.array(l), [p % n for p in l], l))
+    for mask in itertools.product([False, True], repeat=n):
+        rows.append(("mask_ndarray", np.array(mask), [i for i, b in enumerate(mask) if b], [int(b) for b in mask]))
+    tag_of = [s // U for s, _ in ivs]
+
+    def trigger(form, desc, ps):
+        # why a label-based (.loc) treatment of the row key differs from the positional one on this key
+        if form == "slice":
+            return "slice"
+        if form in ("int", "list", "ndarray") and any(p < 0 for p in ([desc] if form == "int" else desc)):
+            return "negative_position"
+        if form == "int":
+            return "int_row"
+        return "rows_not_a_prefix" if ps != list(range(len(ps))) else "none"
+
+    for form, key, ps, desc in rows:
+        trig = trigger(form, desc, ps)
+        base = {"intervals": ivs, "rows_form": form, "rows": desc}
+        # reference: the interval columns are positional
+        try:
+            st = np.atleast_1d(ep[key, "start"])
+            ref_ok = [C.to_ns(x) for x in st] == [ivs[p][0] for p in ps]
+        except Exception:
+            ref_ok = False
+        if not ref_ok:
+            cx.viol({"op": "IntervalSet.__getitem__", "form": form + ",'start'", "part": "intervals"}, "ep[rows, 'start'] is not the starts at the requested positions", base)
+        # column-name lists in either order (the result's columns are start, end, then the metadata: the order asked for plays no role)
+        flip = rng.random() < 0.5
+        for cform, cols in (("str", "tag"), ("metadata_columns", ["lab", "tag"] if flip else ["tag", "lab"]),
+                            ("start_end_and_metadata_columns", ["tag", "end", "lab", "start"] if flip else ["start", "end", "tag", "lab"])):
+            full = "%s,%s" % (form, cform)
+            kk = {"op": "IntervalSet.__getitem__", "form": full, "columns": cform, "trigger": trig}
+            inp = dict(base, columns=cols)
+            res.count("iset_index_rows,columns")
+            res.case(("iset", gname, full, str(desc)), nontrivial=0 < len(ps) < n or not strictly_inc(ps))
+            try:
+                r = ep[key, cols]
+            except Exception as ex:
+                cx.viol(dict(kk, part="exception"), "valid key raised %s: %s" % (type(ex).__name__, str(ex)[:60]), inp)
+                continue
+            if cform == "start_end_and_metadata_columns":
+                if not isinstance(r, nap.IntervalSet):
+                    cx.viol(dict(kk, part="type"), "result is not an IntervalSet", inp, type(r).__name__)
+                    continue
+                impl = canon_res(r)
+                err = attach_err(r, ivs, "same")
+                if err == "nometa":
+                    if ps and strictly_inc(ps):
+                        cx.viol(dict(kk, part="lost"), "order-preserving selection lost its metadata", inp, impl)
+                elif err:
+                    cx.viol(dict(kk, part="misattached"), err, inp, impl)
+                if strictly_inc(ps) and [t[0] for t in ticks(r)] != [ivs[p][0] for p in ps]:
+                    cx.viol(dict(kk, part="intervals"), "selected intervals are not the requested ones (ep[rows, 'start'] and ep[rows] select %s)" % ps, inp, impl)
+                continue
+            # metadata values only: they must be those of the intervals ep[rows, 'start'] returns, in that order
+            try:
+                if cform == "str":
+                    got = [int(x) for x in np.atleast_1d(np.asarray(r))]
+                    want = [tag_of[p] for p in ps]
+                else:
+                    arr = np.asarray(r, dtype=object)
+                    arr = arr.reshape(1, -1) if arr.ndim == 1 else arr
+                    got = [(int(b), str(a)) for a, b in arr] if flip else [(int(a), str(b)) for a, b in arr]
+                    want = [(tag_of[p], "s%d" % tag_of[p]) for p in ps]
+            except Exception as ex:
+                cx.viol(dict(kk, part="type"), "result cannot be read as metadata values: %s" % type(ex).__name__, inp, repr(r)[:80])
+                continue
+            if got != want:
+                cx.viol(dict(kk, part="misattached"), "metadata returned for the row key is not that of the intervals the same row key selects", inp, got, want)
 
 
 # ----------------------------------------------------------------------------------------------
@@ -349,7 +452,8 @@ def run_ctor(cx):
             if "tag" in r.metadata_columns:
                 got = list(zip(ticks(r), [int(t) for t in r.metadata["tag"].values]))
                 given = {t: (s, e) for s, e, t in zip(ss, es, tags)}
-                bad = [g for g in got if not (g[0][0] == given[g[1]][0] and g[0][1] in (given[g[1]][1], given[g[1]][1] - US))]
+                # output interval i IS input interval i: same start; same end, except that an end TOUCHING the next start is given back 1 us earlier
+                bad = [g for g in got if not (g[0][0] == given[g[1]][0] and g[0][1] == given[g[1]][1] - (US if given[g[1]][1] in ss else 0))]
                 if bad or len(got) != m:
                     cx.viol(dict(kk, part="misattached"), "constructor kept metadata although output intervals are not the input intervals: %s" % bad, inp, impl)
             elif canonical:
@@ -434,21 +538,29 @@ def run_setops(cx):
         cx.corr("time_span\t%s" % obj_line(a), canon_res(r), {"op": "time_span", "A": a})
         if r.metadata_columns:
             cx.viol({"op": "time_span"}, "time_span returned metadata", {"A": a})
-    # overlapping column names are dropped from both sides, never mixed
+    # the same column name on both sides: the statement does not require a drop (the library warns and drops); whatever value
+    # survives under that name must be the value of a parent (of A or of B) that contains the piece, never another interval's
     for a, b in rng.sample(pairs, 60):
-        r = ep_of(a, "tag").intersect(ep_of(b, "tag"))
+        r = call(cx, {"op": "intersect", "columns": "same_name"}, {"A": a, "B": b}, lambda: ep_of(a, "tag").intersect(ep_of(b, "tag")))
         res.case(("setop_samecol", tuple(a), tuple(b)), nontrivial=True)
-        if r.metadata_columns:
-            cx.viol({"op": "intersect", "part": "overlapping_columns"}, "overlapping metadata columns survived", {"A": a, "B": b})
+        if r is None:
+            continue
+        res.count("intersect_same_column_name_" + ("kept" if "tag" in r.metadata_columns else "dropped"))
+        if "tag" in r.metadata_columns:
+            for (s_, e_), t in zip(ticks(r), r.metadata["tag"].values):
+                if not any(s0 // U == int(t) and s0 <= s_ and e_ <= e0 for s0, e0 in list(a) + list(b)):
+                    cx.viol({"op": "intersect", "columns": "same_name", "part": "misattached"}, "piece (%d,%d) carries tag %d, which is not the tag of a parent containing it" % (s_, e_, int(t)),
+                            {"A": a, "B": b}, canon_res(r))
+                    break
     cx.flush()
-    # sequences of two operations: tags still derive from the ORIGINAL A intervals (containment)
+    # sequences of three operations: tags still derive from the ORIGINAL A intervals (containment)
     ops = ["mask", "slice", "inter", "diff", "split"]
     nseq = 700 if cx.quick else 6000
     seqs = []
     for _ in range(nseq):
         a = rng.choice([s for s in sets if len(s) >= 2])
         steps = []
-        for _k in range(2):
+        for _k in range(NSTEPS):
             op = rng.choice(ops)
             if op == "mask":
                 steps.append((op, [rng.random() < 0.6 for _ in range(8)]))
@@ -462,7 +574,7 @@ def run_setops(cx):
     state = []
     for a, steps in seqs:
         state.append({"a": a, "steps": steps, "obj": ep_of(a, "tag"), "model": ("K", a, [s // U for s, _ in a]), "alive": True})
-    for k in range(2):
+    for k in range(NSTEPS):
         lines, idx = [], []
         for n_, st in enumerate(state):
             if not st["alive"]:
@@ -524,7 +636,7 @@ def run_setops(cx):
             st["model"] = ("K", list(zip(iv[0::2], iv[1::2])), [int(x) for x in m_cmp.split("|")[3].split()])
     for a, steps in seqs:
         res.case(("seq", tuple(a), str(steps)), nontrivial=True)
-        res.count("sequences_of_two_ops")
+        res.count("sequences_of_three_ops")
 
 
 # ----------------------------------------------------------------------------------------------
@@ -629,6 +741,55 @@ def run_frame(cx):
             if ps:
                 check(r, [consts[p] for p in ps], {"op": "TsdFrame.__getitem__", "form": "bool_series"}, {"labels": labs, "thr": thr})
                 cx.corr("f_mask\t%s\t%s" % (objl, C.fmt_ints([int(c > thr) for c in consts])), canon(r), {"op": "frame_get_mask", "labels": labs, "thr": thr})
+        # boolean pd.Series whose index is the column labels in ANOTHER order (a condition on re-ordered metadata). Which columns
+        # such a key selects is not the statement's business (fr[:, key] takes the values by position, fr[key] reads it as a ROW
+        # mask); the statement's demand is on what comes back: every returned column still has its own label and metadata row
+        def check_attached(r, kk, inp):
+            if not isinstance(r, nap.TsdFrame):
+                cx.viol(dict(kk, part="type"), "result is not a TsdFrame", inp, type(r).__name__)
+            elif len(r) and r.shape[1]:
+                row = [int(v) for v in r.values[0]]
+                if any(c not in consts for c in row):
+                    cx.viol(dict(kk, part="data"), "column data is not an input column's", inp, row)
+                else:
+                    check(r, row, kk, inp)
+        cperms = list(itertools.permutations(range(n)))
+        cperms = rng.sample(cperms[1:], 6 if cx.quick else 40)
+        for perm in cperms:
+            for mask in itertools.product([False, True], repeat=n):
+                if not any(mask):
+                    continue
+                key = pd.Series(list(mask), index=[labs[i] for i in perm])
+                for form, fn in (("bool_series_permuted_index", lambda: fr[key]), (":,bool_series_permuted_index", lambda: fr[:, key])):
+                    inp = {"labels": labs, "form": form, "mask_index": [labs[i] for i in perm], "mask": [int(b) for b in mask]}
+                    res.count("frame_" + form)
+                    res.case(("frame", lname, form, perm, mask), nontrivial=True)
+                    kk = {"op": "TsdFrame.__getitem__", "form": form}
+                    try:
+                        r = fn()
+                    except Exception as ex:
+                        if form[0] == ":":
+                            cx.viol(dict(kk, part="exception"), "valid key raised " + type(ex).__name__, inp)
+                        else:   # read as a row mask of the wrong length when the frame is not square: no object is produced
+                            res.count("observed:frame_bare_bool_series_permuted_index_read_as_row_mask_raises")
+                        continue
+                    if form[0] != ":" and isinstance(r, nap.TsdFrame) and r.shape[1] == n and len(r) != len(fr):
+                        res.count("observed:frame_bare_bool_series_permuted_index_selected_rows")
+                    check_attached(r, kk, inp)
+        # NumPy functions that move the data columns (same shape, so the library keeps labels and metadata in the OLD order)
+        rev = list(range(n))[::-1]
+        for fname, fn, order in (("flip", lambda: np.flip(fr, axis=1), rev), ("fliplr", lambda: np.fliplr(fr), rev),
+                                 ("roll", lambda: np.roll(fr, 1, axis=1), [n - 1] + list(range(n - 1))), ("take", lambda: np.take(fr, rev, axis=1), rev)):
+            res.case(("frame", lname, "numpy_column_permutation", fname), nontrivial=True)
+            res.count("frame_numpy_column_permutation")
+            kk = {"op": "TsdFrame.numpy_column_permutation", "function": fname, "axis": 1}
+            try:
+                r = fn()
+            except Exception as ex:
+                cx.viol(dict(kk, part="exception"), "raised " + type(ex).__name__, {"labels": labs, "function": fname})
+                continue
+            if isinstance(r, nap.TsdFrame):   # a bare ndarray carries no labels: nothing can be misattached
+                check(r, [consts[j] for j in order], kk, {"labels": labs, "function": "np.%s along axis 1" % fname})
         # label keys: loc (all label kinds) and [] (string labels)
         lkeys = []
         for m in range(2, n + 1):
@@ -670,10 +831,13 @@ def run_frame(cx):
                 want = [j for j, a in enumerate(assign) if a == v]
                 if sorted(int(i) for i in groups[v]) != want:
                     cx.viol({"op": "TsdFrame.groupby"}, "group positions are not the columns whose metadata value is the group's", {"labels": labs, "grp": assign})
-                if len(want) > 1:
+                try:
                     r = f2.groupby("grp", get_group=v)
-                    check(r, [consts[j] for j in want], {"op": "TsdFrame.groupby", "part": "get_group"}, {"labels": labs, "grp": assign, "group": v})
-                    cx.corr("f_labels\t%s\t%s" % (objl, C.fmt_ints([code(labs[j]) for j in want])), canon(r), {"op": "frame_groupby", "labels": labs, "grp": assign})
+                except Exception as ex:
+                    cx.viol({"op": "TsdFrame.groupby", "part": "exception"}, "get_group raised " + type(ex).__name__, {"labels": labs, "grp": assign, "group": v})
+                    continue
+                check(r, [consts[j] for j in want], {"op": "TsdFrame.groupby", "part": "get_group"}, {"labels": labs, "grp": assign, "group": v})
+                cx.corr("f_labels\t%s\t%s" % (objl, C.fmt_ints([code(labs[j]) for j in want])), canon(r), {"op": "frame_groupby", "labels": labs, "grp": assign})
         # operations that keep every column: restrict, get, row slicing, arithmetic, ufuncs, bin_average, interpolate, save/load
         ep = nap.IntervalSet(G.arr([0, 4 * U]), G.arr([2 * U, 6 * U]))
         same = [("restrict", lambda: fr.restrict(ep), None), ("get", lambda: fr.get(0.0, 4 * U / 1e9), None), ("rows", lambda: fr[1:3], None),
@@ -808,6 +972,40 @@ def run_group(cx):
                     continue
                 check(r, want, kk, inp)
                 cx.corr("g_mask\t%s\t%s" % (objl, C.fmt_ints([int(b) for b in mask])), canon(r), dict(inp, op="group_get_mask"))
+        # boolean pd.Series whose index is the keys in another order, pd.Index / integer Series of keys in any order: whichever members
+        # come back, each key still holds its own member and its own metadata row
+        gperms = rng.sample(list(itertools.permutations(range(n)))[1:], 6 if cx.quick else 40)
+        for perm in gperms:
+            for mask in itertools.product([False, True], repeat=n):
+                if not any(mask):
+                    continue
+                inp = {"keys": keys, "form": "bool_series_permuted_index", "mask_index": [keys[i] for i in perm], "mask": [int(b) for b in mask]}
+                res.count("group_bool_series_permuted_index")
+                res.case(("group", kname, "bool_series_permuted_index", perm, mask), nontrivial=True)
+                kk = {"op": "TsGroup.__getitem__", "form": "bool_series_permuted_index"}
+                try:
+                    r = g[pd.Series(list(mask), index=[keys[i] for i in perm])]
+                except Exception as ex:
+                    cx.viol(dict(kk, part="exception"), "valid key raised " + type(ex).__name__, inp)
+                    continue
+                if isinstance(r, nap.TsGroup) and len(r) != sum(mask):
+                    cx.viol(dict(kk, part="keys"), "a mask with %d True values returned %d members" % (sum(mask), len(r)), inp)
+                check(r, [(k, rk[k]) for k in (r.keys() if isinstance(r, nap.TsGroup) else [])], kk, inp)
+        for p in subs:
+            if len(p) < 2:
+                continue
+            ks = [keys[i] for i in p]
+            for form, key in (("pd.Index", pd.Index(ks)), ("pd.Series_int", pd.Series(ks)), ("pd.Series_int_own_index", pd.Series(ks, index=[7 - 2 * i for i in range(len(ks))]))):
+                inp = {"keys": keys, "form": form, "key": ks}
+                res.count("group_" + form)
+                res.case(("group", kname, form, str(ks)), nontrivial=True)
+                kk = {"op": "TsGroup.__getitem__", "form": form}
+                try:
+                    r = g[key]
+                except Exception as ex:
+                    cx.viol(dict(kk, part="exception"), "valid key raised " + type(ex).__name__, inp)
+                    continue
+                check(r, [(k, rk[k]) for k in sorted(ks)], kk, inp)
         for k in keys:
             res.case(("group", kname, "scalar", k), nontrivial=True)
             if resid(g[k]) != rk[k]:
@@ -904,6 +1102,32 @@ def run_group(cx):
                             if bad:
                                 cx.viol(dict(kk, part="operand_corrupted", operand=nm), "after merge_group the %s operand's metadata no longer follows its keys" % nm, inp,
                                         list(gx.metadata.index), kx)
+        # merge_group of THREE groups: every split of the members into three non-empty groups, two argument orders, both index modes
+        for assign in itertools.product([0, 1, 2], repeat=n):
+            if len(set(assign)) < 3:
+                continue
+            parts = [[k for k, a in zip(keys, assign) if a == c] for c in (0, 1, 2)]
+            for order in ((0, 1, 2), (2, 0, 1)):
+                ksl = [parts[c] for c in order]
+                cat = [k for ks in ksl for k in ks]
+                inter = cat != sorted(cat)
+                for reset in (False, True):
+                    gs = [mk(ks, [rk[k] for k in ks]) for ks in ksl]
+                    inp = {"keys_list": ksl, "reset_index": reset, "ignore_metadata": False}
+                    res.case(("group", kname, "merge3", assign, order, reset), nontrivial=True)
+                    res.count("group_merge_three" + ("_keys_not_ascending" if inter else ""))
+                    kk = {"op": "TsGroup.merge_group", "operands": 3, "reset_index": reset, "ignore_metadata": False, "keys": "concatenation_not_sorted" if inter else "ascending"}
+                    try:
+                        r = nap.TsGroup.merge_group(*gs, reset_index=reset) if order[0] == 0 else gs[0].merge(gs[1], gs[2], reset_index=reset)
+                    except Exception as ex:
+                        cx.viol(dict(kk, part="exception"), "merge of groups with disjoint keys raised %s: %s" % (type(ex).__name__, str(ex)[:60]), inp)
+                        continue
+                    check(r, [(i, None) for i in range(n)] if reset else sorted((k, rk[k]) for k in cat), kk, inp)
+                    if reset and isinstance(r, nap.TsGroup) and sorted(x for x in (resid(r[k]) for k in r.keys()) if x is not None) != sorted(rk[k] for k in cat):
+                        cx.viol(dict(kk, part="members"), "the merged group does not hold each operand member exactly once", inp, canon(r))
+                    for gx, kx, nm in zip(gs, ksl, ("first", "second", "third")):
+                        if list(gx.metadata.index) != kx or [int(t) for t in gx.metadata["tag"].values] != [10 * rk[k] for k in kx]:
+                            cx.viol(dict(kk, part="operand_corrupted", operand=nm), "after merge_group the %s operand's metadata no longer follows its keys" % nm, inp, list(gx.metadata.index), kx)
     cx.flush()
 
 
@@ -911,12 +1135,16 @@ def run(res, tier, seed):
     warnings.simplefilter("ignore")
     cx = Ctx(res, tier, seed)
     res.rule = ("TAGGED data (interval tag = its start, column tag = 10 x its constant value, member tag = 10 x the residue of its spike times): every tag is recomputed from the element's own "
-                "data. IntervalSet (4/5 intervals, 2 geometries): ALL ints, slices (incl. negative steps), position lists in every order (+ repeats, out of range), all masks (list/ndarray/"
-                "tuple form), pd.Index / int Series in every order, boolean Series with its index in every order, groupby, drop_short/long, loc [complete]; constructor over ALL raw "
-                "start/end sequences of <=3 intervals on a 5-point lattice (arrays and DataFrame form); intersect/set_diff/union on pairs of canonical sets (<=3 intervals, 7/8 points), split, "
-                "merge_close, time_span; sequences of two operations; TsdFrame (4 label kinds): all position lists, slices, masks, label lists in every order, loc, groupby, 16 column-preserving "
-                "operations, save/load; TsGroup (2 key sets): key lists in every order, masks, getby_*, groupby, restrict/get, save/load, merge_group over every split x order x flags, operands "
-                "re-checked after each merge. non-trivial = the selection is proper or reorders / the input needs repair / the operands overlap")
+                "data; an output interval must equal its input interval EXACTLY (a 1 us shorter end is accepted only from the constructor, for an end that touches the next start). "
+                "IntervalSet (4/5 intervals, 2 geometries): ALL ints, slices (incl. negative steps), position lists in every order (+ repeats, out of range), all masks (list/ndarray), "
+                "pd.Index / int Series (default and own index) in every order, boolean Series with its index in every order, EACH ALSO in the tuple form ep[key, :]; ep[rows, 'tag'], "
+                "ep[rows, [metadata columns]], ep[rows, ['start','end',metadata columns]] for int / slice / list / ndarray / mask rows (negative positions included); groupby, drop_short/long, "
+                "loc [complete]; constructor over ALL raw start/end sequences of <=3 intervals on a 5-point lattice (arrays and DataFrame form); intersect/set_diff/union on pairs of canonical "
+                "sets (<=3 intervals, 7/8 points), intersect with the same column name on both sides, split, merge_close, time_span; sequences of three operations; TsdFrame (4 label kinds): all "
+                "position lists, slices, masks, label lists in every order, boolean Series with the labels in another order (bare and [:, key]), loc, groupby (groups of one column included), "
+                "16 column-preserving operations, 4 NumPy column permutations, save/load; TsGroup (2 key sets): key lists in every order, masks, boolean Series with the keys in another order, "
+                "pd.Index / int Series of keys, getby_*, groupby, restrict/get, save/load, merge_group over every split into two x order x flags and every split into three x 2 orders x "
+                "reset_index, operands re-checked after each merge. non-trivial = the selection is proper or reorders / the input needs repair / the operands overlap")
     res.exhaustive = True
     for part in (run_iset_index, run_ctor, run_setops, run_frame, run_group):
         try:
@@ -947,10 +1175,38 @@ def replay(payload):
     if "intervals" in inp and "mask_index" in inp:
         ivs = [tuple(x) for x in inp["intervals"]]
         ep = mk_ep(nap, ivs)
-        r = ep[pd.Series([bool(b) for b in inp["mask"]], index=inp["mask_index"])]
+        key = pd.Series([bool(b) for b in inp["mask"]], index=inp["mask_index"])
+        r = ep[key, :] if inp.get("tuple") else ep[key]
         err = attach_err(r, ivs, "same")
         print(r, "\noracle:", err)
         return 1 if err else 0
+    if "intervals" in inp and "rows_form" in inp:
+        ivs = [tuple(x) for x in inp["intervals"]]
+        ep = mk_ep(nap, ivs)
+        f, d = inp["rows_form"], inp["rows"]
+        rows = d if f in ("int", "list") else slice(*d) if f == "slice" else np.array(d, dtype=bool if f.startswith("mask") else int)
+        n = len(ivs)
+        ps = [d % n] if f == "int" else list(range(n))[rows] if f == "slice" else [i for i, b in enumerate(d) if b] if f.startswith("mask") else [p % n for p in d]
+        print("ep[rows, 'start'] ->", ep[rows, "start"], " positions", ps, " their tags", [ivs[p][0] // U for p in ps])
+        try:
+            r = ep[rows, inp["columns"]]
+        except Exception as ex:
+            print("ep[rows, %r] raised" % (inp["columns"],), type(ex).__name__, ex)
+            return 1
+        print("ep[rows, %r] ->" % (inp["columns"],))
+        print(r)
+        if isinstance(r, nap.IntervalSet):
+            err = attach_err(r, ivs, "same")
+            bad = (err and not (err == "nometa" and not strictly_inc(ps))) or (strictly_inc(ps) and [t[0] for t in ticks(r)] != [ivs[p][0] for p in ps])
+            print("oracle:", err)
+            return 1 if bad else 0
+        got = [int(x) for x in np.atleast_1d(np.asarray(r if isinstance(inp["columns"], str) else r["tag"]))]
+        return 0 if got == [ivs[p][0] // U for p in ps] else 1
+    if inp.get("function", "").startswith("np."):
+        fr = nap.TsdFrame(t=np.arange(3.0), d=np.tile([11.0, 22, 33, 44], (3, 1)), columns=list("abcd"), metadata={"tag": [110, 220, 330, 440]})
+        for nm, r in (("flip", np.flip(fr, axis=1)), ("roll", np.roll(fr, 1, axis=1))):
+            print("np.%s along axis 1: columns" % nm, list(r.columns), "row", r.values[0].tolist(), "tags", list(r.metadata["tag"]))
+        return 1 if list(np.flip(fr, axis=1).columns) == list("abcd") else 0
     if "keys_1" in inp:
         def member(r):
             return nap.Ts(G.arr([(16 * m + r) * U for m in range(4)]))
